@@ -752,6 +752,11 @@ pub fn load_known_findings() -> Result<Vec<KnownFinding>, HarnessError> {
 pub struct CheckOutcome {
     pub exit: i32,
     pub run_hashes: Vec<(u64, u64)>,
+    /// hash of everything the run observed that must not depend on scheduling: all counters
+    /// except timing ones, the sizes of the distinct sets, the violating runs
+    pub outcome_digest: u64,
+    /// the observations behind the digest, for diagnosing a mismatch
+    pub outcome_items: Vec<(String, u64)>,
 }
 
 pub fn run_check(engine: &'static dyn Engine, opts: &Opts) -> CheckOutcome {
@@ -759,13 +764,13 @@ pub fn run_check(engine: &'static dyn Engine, opts: &Opts) -> CheckOutcome {
     let id = engine.id();
     if let Err(e) = crate::palette::check_palettes().and_then(|_| engine.startup_check()) {
         eprintln!("harness error: start-up self-check failed: {}", e);
-        return CheckOutcome { exit: 2, run_hashes: vec![] };
+        return CheckOutcome { exit: 2, run_hashes: vec![], outcome_digest: 0, outcome_items: vec![] };
     }
     let known = match load_known_findings() {
         Ok(k) => k,
         Err(e) => {
             eprintln!("{}", e);
-            return CheckOutcome { exit: 2, run_hashes: vec![] };
+            return CheckOutcome { exit: 2, run_hashes: vec![], outcome_digest: 0, outcome_items: vec![] };
         }
     };
     let n = opts.runs.unwrap_or_else(|| engine.runs(opts.tier));
@@ -784,7 +789,7 @@ pub fn run_check(engine: &'static dyn Engine, opts: &Opts) -> CheckOutcome {
         if let Some(p) = cfg.exe {
             if !std::path::Path::new(p).exists() {
                 eprintln!("harness error: worker executable {} for configuration {} is missing (run ./check build)", p, cfg.name);
-                return CheckOutcome { exit: 2, run_hashes: vec![] };
+                return CheckOutcome { exit: 2, run_hashes: vec![], outcome_digest: 0, outcome_items: vec![] };
             }
         }
         let n_cfg = n * cfg.share.0 / cfg.share.1;
@@ -815,7 +820,7 @@ pub fn run_check(engine: &'static dyn Engine, opts: &Opts) -> CheckOutcome {
         for e in &merged.harness_errors {
             eprintln!("harness error: {}", e);
         }
-        return CheckOutcome { exit: 2, run_hashes: merged.run_hashes };
+        return CheckOutcome { exit: 2, run_hashes: merged.run_hashes, outcome_digest: 0, outcome_items: vec![] };
     }
 
     // one report per distinct invariant id (first occurrence by run index), at most 4
@@ -986,7 +991,28 @@ pub fn run_check(engine: &'static dyn Engine, opts: &Opts) -> CheckOutcome {
         wall,
         exit
     );
-    CheckOutcome { exit, run_hashes: merged.run_hashes }
+    let mut outcome_items: Vec<(String, u64)> = Vec::new();
+    for (k, v) in &merged.counters.0 {
+        // timing-dependent observations are not part of the deterministic outcome
+        if k.contains("micros") || k.contains("slow") || k.contains("scaling") {
+            continue;
+        }
+        outcome_items.push((k.clone(), *v));
+    }
+    for (c, set) in &merged.sets {
+        outcome_items.push((format!("distinct-class-{}", c), set.len() as u64));
+    }
+    for (run, v, _) in &merged.violations {
+        outcome_items.push((format!("violation:{}", v.invariant), *run));
+    }
+    let outcome_digest = {
+        let mut h = crate::util::Hasher64::new();
+        for (k, v) in &outcome_items {
+            h.str(k).u64(*v);
+        }
+        h.finish()
+    };
+    CheckOutcome { exit, run_hashes: merged.run_hashes, outcome_digest, outcome_items }
 }
 
 #[allow(clippy::too_many_arguments)]
